@@ -24,9 +24,21 @@ Encodings (no spaces):  string  = code points joined by `.`            (empty st
                                them) cr=<hasCR>
   XREAD a=<0|1> t=<string>  -> r=<spec XML reader (character data / attribute value) on t|ERR>
   DEC u=<unscaled> s=<scale> -> old=<quantize2UpOld> trig=<f17bTrigger>
+  PARSEWS p=<policy> t=<string> -> val=<spec parseJsonWs(t) (RFC 8259 §2 with ws)|ERR> pj=<model post-processing|ERR:code>
+                               spec=<F&O duplicates policy on val|ERR> cmp=<spec parseJson(t) (no-ws reader)|ERR>
+  SERWS v=<value> w=<ws strings joined by `,`> -> n=<number of tokens of serialize_to_json(v)> cat=<1 iff tokens.flatten = model text>
+                               text=<padWith w tokens> parsed=<spec parseJsonWs(text)|ERR> okws=<1 iff every w is whitespace>
+  J2XE p=<policy> [r=…] v=<value> -> xml=<model json-to-xml(·, escape:true) with flags: E<tag>(<key>;<escaped-key 0|1><escaped 0|1>;<text>;[…])|ERR>
+                               json=<model xml-to-json reading the flags|ERR:code> parsed=<spec parseJson(json)|ERR>
+  CRMARK a=<0|1 scan attribute values> p=<pieces `M|U|C|A|R`+string joined by `,`> (markup, ns uri, chars, attr, raw)
+                            -> mark=<chosen mark|none> out=<model serialize_to_xml of the element|ERR> want=<wanted output>
+                               coll=<markCollides (F17x trigger)> cr=<piecesHaveCR>
 -/
 import EPV.Proto
 import EPV.Model.Json
+import EPV.Model.XmlCrMark
+import EPV.Model.JsonTokens
+import EPV.Model.JsonXmlEsc
 open EPV.Proto EPV.Json
 
 def showStr (s : Str) : String := ".".intercalate (s.map toString)
@@ -51,6 +63,14 @@ partial def showElem : Elem → String
     let k := match key with | none => "-" | some k => "K" ++ showStr k
     let x := match text with | none => "-" | some x => "X" ++ showStr x
     s!"E{t}({k};{x};[{",".intercalate (children.map showElem)}])"
+
+partial def showElemE : ElemE → String
+  | .mk tag key ek es text children =>
+    let t := match tag with
+      | .null => "n" | .boolean => "b" | .number => "d" | .string => "s" | .array => "a" | .map => "m"
+    let k := match key with | none => "-" | some k => "K" ++ showStr k
+    let x := match text with | none => "-" | some x => "X" ++ showStr x
+    s!"E{t}({k};{if ek then "1" else "0"}{if es then "1" else "0"};{x};[{",".intercalate (children.map showElemE)}])"
 
 /-- characters up to (not including) the first delimiter -/
 def takeTok (cs : List Char) : List Char × List Char :=
@@ -233,6 +253,16 @@ def answer (line : String) : String :=
         match xmlToJson (rndOf (field fs "r")) x with
         | .error e => s!"xml={showElem x} json={showErr e} parsed=-"
         | .ok j => s!"xml={showElem x} json=ok:{showStr j} parsed={showOptVal (parseJson j)}"
+  else if kind == "J2XE" then
+    match valOf (field fs "v") with
+    | none => "bad-value"
+    | some v =>
+      match jsonToXmlEsc v (policyOf (field fs "p")) with
+      | .error e => s!"xml={showErr e} json=- parsed=-"
+      | .ok x =>
+        match xmlToJsonE (rndOf (field fs "r")) x with
+        | .error e => s!"xml={showElemE x} json={showErr e} parsed=-"
+        | .ok j => s!"xml={showElemE x} json=ok:{showStr j} parsed={showOptVal (parseJson j)}"
   else if kind == "X2J" then
     match elemOf (field fs "e") with
     | none => "bad-element"
@@ -266,6 +296,37 @@ def answer (line : String) : String :=
     match nat? (field fs "u"), nat? (field fs "s") with
     | some u, some sc => s!"old={quantize2UpOld u sc} trig={b01 (f17bTrigger u sc)}"
     | _, _ => "bad-number"
+  else if kind == "PARSEWS" then
+    match parseCps (field fs "t") with
+    | none => "bad-string"
+    | some t =>
+      let v := parseJsonWs t
+      let p := policyOf (field fs "p")
+      s!"val={showOptVal v} pj={showPj p v} spec={showOptVal (v.bind (dedupeAll p))} cmp={showOptVal (parseJson t)}"
+  else if kind == "SERWS" then
+    match valOf (field fs "v"), ((field fs "w").splitOn ",").mapM parseCps with
+    | some v, some ws =>
+      let toks := jsonTokens v
+      let text := padWith ws toks
+      s!"n={toks.length} cat={b01 (toks.flatten == serializeJson v)} text={showStr text} " ++
+      s!"parsed={showOptVal (parseJsonWs text)} okws={b01 (ws.all (·.all isWs))}"
+    | _, _ => "bad-value"
+  else if kind == "CRMARK" then
+    let pieceOf (x : String) : Option Piece :=
+      match x.toList with
+      | 'M' :: r => (cpsOfTok r).map Piece.markup
+      | 'U' :: r => (cpsOfTok r).map Piece.nsuri
+      | 'C' :: r => (cpsOfTok r).map Piece.chars
+      | 'A' :: r => (cpsOfTok r).map Piece.attr
+      | 'R' :: r => (cpsOfTok r).map Piece.raw
+      | _ => none
+    match ((field fs "p").splitOn ",").mapM pieceOf with
+    | none => "bad-pieces"
+    | some ps =>
+      let attrs := field fs "a" != "0"
+      let mk := chooseMark (usedChars attrs ps)
+      s!"mark={match mk with | some k => toString k | none => "none"} out={showOptStr (serializeRepo attrs ps)} " ++
+      s!"want={showStr (wantedOutput ps)} coll={b01 (markCollides attrs ps)} cr={b01 (piecesHaveCR ps)}"
   else "bad-kind"
 
 def main : IO Unit := mainLoop answer
